@@ -132,7 +132,7 @@ POP_BASES = {
     'nested': rp.Comp([rp.Comp([rp.G(1), rp.P(1)]), rp.H(1)]),
 }
 POP_OPS = ['n1', 'n2', 'n3', 'dims', 'dims0', 'pnames', 'pnames0', 'wrap', 'wrapfix',
-           'fixlast', 'release', 'sel', 'seldup']
+           'fixlast', 'release', 'sel', 'seldup', 'selx']
 
 
 def lists_are_copies(viol, label, *getters):
@@ -272,6 +272,32 @@ def w_pop_history(case):
             if isinstance(m, chi.CovariatePopulationModel) and \
                     m.n_parameters() - m.n_covariates() >= 2 * m.n_dim():
                 m.set_population_parameters([[0, 0], [1, 0], [0, 0]])
+        elif op == 'selx':
+            # both parameters of the last dimension: the covariate parameters carry
+            # the names of exactly the selected parameters
+            if isinstance(m, chi.CovariatePopulationModel) and m.n_dim() >= 2 and \
+                    m.n_parameters() - m.n_covariates() * 0 >= 2 * m.n_dim():
+                d_ = m.n_dim()
+                n_c = m.n_covariates()
+                pairs = [[0, d_ - 1], [1, d_ - 1]]
+                before_names = m.get_parameter_names()
+                m.set_population_parameters(pairs)
+                names_x = m.get_parameter_names()
+                n_pop_x = len(names_x) - len(pairs) * n_c
+                pop_x, cov_x = names_x[:n_pop_x], names_x[n_pop_x:]
+                if n_pop_x >= 2 * d_ and pop_x == before_names[:n_pop_x]:
+                    want = sorted(pop_x[p_ * d_ + k_] for p_, k_ in pairs
+                                  for _ in range(n_c))
+                    got_pref = sorted(
+                        max([q for q in pop_x if c_.startswith(q)] or [''],
+                            key=len) for c_ in cov_x)
+                    if got_pref != want:
+                        viol.append({
+                            'sub': 'sel_names', 'message': 'after selecting the '
+                            'pairs %s the covariate parameters are not named after '
+                            'the selected population parameters' % pairs,
+                            'expected': want, 'observed': cov_x,
+                            'behaviour': 'sel_names'})
         elif op == 'sel':
             # (a reduced wrapper does not offer this call; reaching through to the
             # wrapped model behind the wrapper's back is not a reconfiguration of
@@ -768,7 +794,43 @@ def w_objects(case):
             'violations': viol}
 
 
-WORKERS = {'hierarchical': w_hier, 'objects': w_objects, 'ctor_n_ids': w_ctor}
+def w_covmodel(case):
+    """A covariate model on its own: after every selection of a history the number of
+    parameters, of names and the accepted coefficient vector agree."""
+    viol = []
+    cm = chi.LinearCovariateModel(n_cov=case['n_cov'])
+    done = []
+    for sel in case['history']:
+        cm.set_population_parameters([list(p_) for p_ in sel])
+        done.append(sel)
+        n_sel = len(set(tuple(p_) for p_ in sel))
+        names = cm.get_parameter_names()
+        want = n_sel * case['n_cov']
+        ok = cm.n_parameters() == want and len(names) == want and \
+            len(set(names)) == len(names)
+        if ok:
+            try:
+                ppd = 1 + max(p_[0] for p_ in sel)
+                d_ = 1 + max(p_[1] for p_ in sel)
+                v = cm.compute_population_parameters(
+                    np.full(want, 0.5), np.ones((ppd, d_)),
+                    np.ones((2, case['n_cov'])))
+                ok = np.shape(v) == (2, ppd, d_)
+            except Exception:
+                ok = False
+        if not ok:
+            viol.append({'sub': 'covmodel', 'message': 'covariate model after the '
+                         'selections %s: parameters, names and accepted vector '
+                         'disagree' % done, 'expected': want,
+                         'observed': [cm.n_parameters(), names],
+                         'behaviour': 'covmodel'})
+            break
+    return {'transitions': len(case['history']), 'outcome': key_of(
+        [case, cm.n_parameters()]), 'violations': viol}
+
+
+WORKERS = {'hierarchical': w_hier, 'objects': w_objects, 'ctor_n_ids': w_ctor,
+           'covmodel': w_covmodel}
 for _b in POP_BASES:
     WORKERS['pop_' + _b] = w_pop_history
 
@@ -946,8 +1008,17 @@ def build(tier, seed):
                     for then in (thens if tier == 'thorough' or k == 2
                                  else thens[:4] + thens[6:]):
                         ctor.append({'subs': subs, 'then': then})
+    # covariate models on their own: every history of <= 2 selections out of a menu
+    # of selections of 1-3 pairs, 1-2 covariates
+    sels = [[[0, 0]], [[1, 0]], [[0, 0], [1, 0]], [[0, 1], [1, 0], [0, 0]],
+            [[1, 1], [0, 1]]]
+    covm = [{'n_cov': nc_, 'history': [list(h_) for h_ in hist_]}
+            for nc_ in (1, 2) for n_h in (1, 2)
+            for hist_ in itertools.product(sels, repeat=n_h)]
     return {
         'parts': [
+            Part('covmodel', covm, w_covmodel,
+                 'LinearCovariateModel alone: histories of selections'),
             Part('ctor_n_ids', ctor, w_ctor,
                  'composed models of heterogeneous sub-models (plain, nested) '
                  'constructed for their own numbers of individuals, '
@@ -991,3 +1062,4 @@ META['level_text'] += (
     'ion histories, renames in the mechanistic histories, nested compositions with '
     "the special dimension first, relabelled log-likelihoods, the controller's indi"
     'vidual-level counts.')
+META['level_text'] += (' Wave 9: selection of both parameters of the last dimension with name oracle, covariate models on their own under histories of selections.')
